@@ -507,14 +507,95 @@ fn typed_subs_for<B: Backend>(out: &mut Vec<SubCheck>) {
     ));
 }
 
+
+// ---------------------------------------------------------------------------
+// the payload-encoding suffix is part of the header and must be authenticated too
+
+#[derive(Clone, Debug, Serialize, Deserialize)]
+pub struct EncCase {
+    pub public: bool,
+    pub key: KeySeed,
+    pub msg: BytesSpec,
+    pub footer: BytesSpec,
+    pub assertion: BytesSpec,
+    /// seal under the suffixed encoding and offer to the plain one (true) or the reverse
+    pub from_suffixed: bool,
+}
+
+fn enc_relabel<B: Backend, P: Purpose, A: BytesPayload, Z: BytesPayload>(acc: &mut Acc, c: &EncCase, sealing: &Key<V<B>, P::SealingKey>, unsealing: &Key<V<B>, P>) -> R
+where
+    V<B>: SealingVersion<P>,
+{
+    let name = B::NAME;
+    let purpose = if c.public { "public" } else { "local" };
+    let (m, f, i) = (c.msg.bytes(), c.footer.bytes(), c.assertion.bytes());
+    let s = UnsealedToken::<V<B>, P, A>::new(A::from_bytes(m.clone()))
+        .with_footer(f.clone())
+        .seal(sealing, &i)
+        .map_err(|e| Fail::new(format!("C02/{name}/{purpose}/encoding-relabel/seal-failed"), format!("{e}")))?
+        .to_string();
+    let ha = token_header::<A>(B::VER, purpose);
+    let hz = token_header::<Z>(B::VER, purpose);
+    // control under its own encoding
+    let ctl: SealedToken<V<B>, P, A, Vec<u8>> = s.parse().map_err(|e| Fail::new(format!("C02/{name}/{purpose}/encoding-relabel/control-parse"), format!("{e}")))?;
+    let u = ctl.unseal(unsealing, &i, &NoValidation::dangerous_no_validation()).map_err(|e| Fail::new(format!("C02/{name}/{purpose}/encoding-relabel/control-rejected"), format!("{e}")))?;
+    crate::ensure!(u.claims.bytes() == &m[..], format!("C02/{name}/{purpose}/encoding-relabel/control-differs"), "control differs");
+    // the own header must not parse as the other encoding, and the rewritten header must not verify
+    crate::ensure!(s.parse::<SealedToken<V<B>, P, Z, Vec<u8>>>().is_err() || ha == hz, format!("C02/{name}/{purpose}/encoding-relabel/parsed-under-other-encoding"), "a {ha} token parses as {hz}");
+    let relabelled = format!("{hz}{}", &s[ha.len()..]);
+    acc.eval();
+    acc.nt(hash_of(&(name, purpose, &c.key, &c.msg, c.from_suffixed)));
+    acc.class("mutant:relabel-encoding-suffix");
+    if let Ok(t) = relabelled.parse::<SealedToken<V<B>, P, Z, Vec<u8>>>() {
+        if t.unseal(unsealing, &i, &NoValidation::dangerous_no_validation()).is_ok() {
+            return Err(Fail::new(
+                format!("C02/{name}/{purpose}/relabel-encoding/accepted"),
+                format!("a token sealed under header {ha} is accepted after rewriting the header to {hz} (the encoding suffix is not authenticated)"),
+            ));
+        }
+    }
+    Ok(())
+}
+
+fn enc_case<B: Backend>(c: &EncCase, acc: &mut Acc) -> R {
+    rng::reseed_case(hash_of(&(&c.key, &c.msg)));
+    if c.public {
+        let sk = secret_key::<B>(&c.key);
+        let pk = sk.public_key();
+        if c.from_suffixed { enc_relabel::<B, Public, RawS, Raw>(acc, c, &sk, &pk) } else { enc_relabel::<B, Public, Raw, RawS>(acc, c, &sk, &pk) }
+    } else {
+        let k = local_key::<B>(&c.key);
+        if c.from_suffixed { enc_relabel::<B, Local, RawS, Raw>(acc, c, &k, &k) } else { enc_relabel::<B, Local, Raw, RawS>(acc, c, &k, &k) }
+    }
+}
+
+fn enc_subs_for<B: Backend>(out: &mut Vec<SubCheck>) {
+    let cases = match B::NAME {
+        "paseto-v1" => (40, 400),
+        "paseto-v3" => (60, 800),
+        _ => (200, 4000),
+    };
+    out.push(SubCheck::prop(
+        format!("c02.encoding-relabel/{}", B::NAME),
+        5,
+        cases,
+        |_t| {
+            (any::<bool>(), gens::key_seed(), gens::small_payload(), gens::footer(), gens::assertion(B::VER.has_assertion()), any::<bool>())
+                .prop_map(|(public, key, msg, footer, assertion, from_suffixed)| EncCase { public, key, msg, footer, assertion, from_suffixed })
+        },
+        enc_case::<B>,
+    ));
+}
+
 pub fn def() -> PropertyDef {
     let mut subs = Vec::new();
     crate::for_backends!(B => subs_for::<B>(&mut subs));
     crate::for_backends!(B => typed_subs_for::<B>(&mut subs));
+    crate::for_backends!(B => enc_subs_for::<B>(&mut subs));
     PropertyDef {
         id: "C02",
         level: "fault_enumeration",
-        rule: "for each generated sealed token (proptest-sampled key, message, footer, assertion): the full mutation catalogue - every single-bit flip of payload, footer and assertion (exhaustive for tokens up to 176 B quick / 2 KiB thorough, edges + sample beyond), every truncation length front and back, 1-3 byte extensions at each field boundary, 1-3 byte shifts across body|footer|assertion, footer/assertion add-remove-replace-swap, other key, one-bit key neighbours, negated P-384 point, other purpose header, other version header with the same key bytes, v1/v2 sealing with an assertion; structured footers (JSON and a case/space-insensitive footer type): every different byte string that decodes to the SAME footer value (whitespace, trailing newline, shadowed duplicate key, escaped key, changed case) must be rejected too; oracle: every mutant rejected, unmutated control accepted with the original claims. Non-trivial iff the mutant is long enough to reach the cryptographic check; distinct by (token, class, position)",
+        rule: "for each generated sealed token (proptest-sampled key, message, footer, assertion): the full mutation catalogue - every single-bit flip of payload, footer and assertion (exhaustive for tokens up to 176 B quick / 2 KiB thorough, edges + sample beyond), every truncation length front and back, 1-3 byte extensions at each field boundary, 1-3 byte shifts across body|footer|assertion, footer/assertion add-remove-replace-swap, other key, one-bit key neighbours, negated P-384 point, other purpose header, other version header with the same key bytes, payload-encoding suffix rewritten in the header (tokens sealed under a suffixed Payload type offered as the plain one and vice versa), v1/v2 sealing with an assertion; structured footers (JSON and a case/space-insensitive footer type): every different byte string that decodes to the SAME footer value (whitespace, trailing newline, shadowed duplicate key, escaped key, changed case) must be rejected too; oracle: every mutant rejected, unmutated control accepted with the original claims. Non-trivial iff the mutant is long enough to reach the cryptographic check; distinct by (token, class, position)",
         assumptions: vec![
             "mutants are offered through FromStr + unseal (the public path); a mutant equal to the original tuple is dropped by byte comparison",
             "ECDSA (r, n-s) malleability is not a single-bit neighbour and is not demanded",
